@@ -418,7 +418,8 @@ func (c *DefaultCtx) ClearCookie(key ...string) {
 			if key[i] == FlashCookieName && c.flashCookieExpired() {
 				continue
 			}
-			c.fasthttp.Response.Header.DelClientCookie(key[i])
+			// (as in Cookie: a line break in the name would end the Set-Cookie line)
+			c.fasthttp.Response.Header.DelClientCookie(removeNewLines(key[i]))
 		}
 		return
 	}
